@@ -1191,7 +1191,14 @@ class RevisionMap:
                                 for r in sl_all_current
                             ]
 
-                        assert len(symbol_list) == 1
+                        if len(symbol_list) != 1:
+                            # no current revision, or more than one, is on
+                            # the given branch
+                            raise RevisionError(
+                                "Relative revision %s didn't "
+                                "produce %d migrations"
+                                % (relative, abs(rel_int))
+                            )
                         symbol = symbol_list[0]
                     else:
                         current_revisions = util.to_tuple(current_revisions)
